@@ -582,6 +582,10 @@ def c14(tier):
         v.mismatch({"what": "recorded ring stream rejected by RingStreamTrace at event %d (%s): %s" % (
             matched, why, lines[matched - 1] if 0 < matched <= len(lines) else "?"),
             "replay": {"seed": core.seed(), "events": lines[lo:matched + 1]}})
+    # the ring as the connection uses it: the producer is writeMessage (with its own wrap path through a scratch buffer), the
+    # consumer the sender's peek/commit pump. Recorded runs of a real broker: what writeMessage announces to commit (enq
+    # hook: packet, length) against what the peer reads from the connection
+    fanin_validate(v, "C14", tier)
     v.cov["rule"] = ("TLC: all interleavings of the Ring specification (Size 4 units, all operation kinds). Replay: transition-cover "
                      "schedules generated by TLC (one witness per transition of the replayable regime), forced on the real buffer through "
                      "the verif yield points, with consumed bytes checked against a position-dependent stream, cursors after every step; "
@@ -1151,7 +1155,7 @@ def fanin_validate(v, pid, tier):
     if not ok:
         ev = lines[matched - 1] if 0 < matched <= len(lines) else "?"
         kind = json.loads(ev).get("e") if ev != "?" else "?"
-        owner = "C08" if kind in ("got", "put") else ("C01" if pid == "C01" else "C17")
+        owner = "C08" if kind in ("got", "put") else (pid if pid in ("C01", "C14") else "C17")
         lo = max(0, matched - 8)
         m = {"what": "recorded run rejected by OutStreamTrace at event %d (%s): %s" % (matched, why, ev),
              "tag": owner, "replay": {"seed": core.seed(), "events": lines[lo:matched + 1]}}
